@@ -106,7 +106,7 @@ def nodal_mismatch(net, ac=True):
     out, mag = branch_outflow(net, ac)
     tot = cons + out
     pos = {b: i for i, b in enumerate(net.bus.index)}
-    vm = net.res_bus.vm_pu
+    vm = net.res_bus.vm_pu if ac else net.res_bus.va_degree
     res = []
     for grp in fused_groups(net):
         if vm.loc[grp].isna().all():
